@@ -124,3 +124,19 @@ pub(crate) fn add_parsed(n: usize) {
 pub fn parsed_bytes() -> u64 {
     PARSED_BYTES.with(std::cell::Cell::get)
 }
+
+thread_local! {
+    static HANDLER_STEPS: std::cell::Cell<u64> = const { std::cell::Cell::new(0) };
+}
+
+/// Work counter: number of run-time handler-vector items visited while looking for the active tail.
+#[inline]
+pub(crate) fn add_handler_steps(n: usize) {
+    HANDLER_STEPS.with(|c| c.set(c.get().wrapping_add(n as u64)));
+}
+
+/// Reads the handler-vector work counter of this thread.
+#[must_use]
+pub fn handler_steps() -> u64 {
+    HANDLER_STEPS.with(std::cell::Cell::get)
+}
